@@ -269,6 +269,14 @@ func (c *ctx) replay(lines []string) {
 		case "val":
 			sub, _ := strconv.ParseUint(f[3], 10, 64)
 			bad := len(f) > 4 && f[4] == "1"
+			if len(f) > 4 && f[4] == "3" {
+				if f[2] == "form.Data" {
+					formEnum(c, parseScript(f[3]))
+				} else if e := find(f[2]); e != nil {
+					e.enum(c, parseScript(f[3]))
+				}
+				continue
+			}
 			if len(f) > 4 && f[4] == "2" {
 				if f[2] == "form.Data" {
 					formWitness(c, int(sub))
@@ -352,6 +360,28 @@ func Run(r *common.Run) error {
 	}
 	for _, sub := range []uint64{1, 2, 3, 4, 5, 6, 7, 8} {
 		formCase(c, sub, false, "corpus")
+	}
+
+	// small-scope exhaustive part: the tree of generator choices of every type in
+	// enumeration mode (every optional field absent/present, 0/1/2 children, the four-value
+	// text alphabet, three numbers, three JIDs, two or three times), fewest non-default
+	// choices first; complete when the tree fits the cap
+	capEnum := r.Pick(400, 6000)
+	for i := range registry {
+		e := &registry[i]
+		r.Mark("case enum %s", strings.ReplaceAll(e.name, " ", "_"))
+		n, complete := enumerate(capEnum, func(sc []int) []int { return e.enum(c, sc) })
+		if complete {
+			r.Exhaustive = append(r.Exhaustive, fmt.Sprintf("%s: all %d values of the enumeration-mode generator", e.name, n))
+		} else {
+			r.Notes = append(r.Notes, fmt.Sprintf("enumeration of %s truncated at %d values (breadth first)", e.name, n))
+		}
+	}
+	r.Mark("case enum form.Data")
+	if n, complete := enumerate(capEnum*3, func(sc []int) []int { return formEnum(c, sc) }); complete {
+		r.Exhaustive = append(r.Exhaustive, fmt.Sprintf("form.Data: all %d forms and Set sequences of the enumeration-mode generator", n))
+	} else {
+		r.Notes = append(r.Notes, fmt.Sprintf("enumeration of form.Data truncated at %d values (breadth first)", n))
 	}
 
 	// data forms: the deepest layer
